@@ -120,6 +120,18 @@ def run(ctx):
     ctx.ob("C20.registry-writers", "register_awkward", upd == ["awkward.behavior.update(vector.backends.awkward.behavior)"],
            f"register_awkward updates: {upd}", None, "src/vector/__init__.py")
 
+    # ordering (typestate): the flag is raised only after the registry update has returned, on every path
+    ctx.rule("C20.register-order", "in register_awkward the store `_awkward_registered = True` is a top-level statement that follows the top-level `awkward.behavior.update(...)` statement "
+                                  "(not inside a try/finally or a branch): if the update raises, or while it runs in another thread, the flag still says 'not registered'")
+    top = [st for st in ra.body if not (isinstance(st, ast.Expr) and isinstance(st.value, ast.Constant))]
+    i_upd = [i for i, st in enumerate(top) if isinstance(st, ast.Expr) and isinstance(st.value, ast.Call) and unparse(st.value.func).endswith("behavior.update")]
+    i_flag = [i for i, st in enumerate(top) if isinstance(st, ast.Assign) and any(isinstance(t, ast.Name) and t.id == "_awkward_registered" for t in st.targets)]
+    n_flag_all = sum(1 for n in ast.walk(ra) if isinstance(n, (ast.Assign, ast.AugAssign, ast.AnnAssign)) and "_awkward_registered" in unparse(n).split("=")[0])
+    ok = len(i_upd) == 1 and len(i_flag) == 1 and n_flag_all == 1 and i_upd[0] < i_flag[0]
+    ctx.ob("C20.register-order", "register_awkward", ok,
+           f"top-level statement order: behavior.update at {i_upd}, flag store at {i_flag} ({n_flag_all} flag stores in the function)", None,
+           f"src/vector/__init__.py:{ra.lineno}")
+
     # (4b) caches
     ndef = 0
     for path in all_source_files(ctx.repo):
